@@ -87,6 +87,24 @@ Theorem C20_ladder_tables_equal_model : forall b, In b ladder_blocks ->
 Proof. exact ladder_tables_equal_model. Qed.
 Print Assumptions C20_ladder_tables_equal_model.
 
+(* EVERY native call of the method (cext calls and os.readlink / os.listdir / os.stat / os.waitpid) fails with the same
+   error -- the really gone / really off-limits process: the method ends with the ladder's translation of that error
+   (only the handlers that decide from the process listing alone remain) *)
+Theorem C20_all_model : forall p meth site c r,
+  err_ok p (c_err c) = true -> known_class p meth site c = false ->
+  all_demanded p meth site c = Some r -> all_outcome p meth site c = r.
+Proof. exact all_model. Qed.
+Print Assumptions C20_all_model.
+Theorem C20_allfail_contract : forall b, In b all_blocks ->
+  Forall2 (fun c g => (known_class (l_plat b) (l_meth b) (l_site b) c = false ->
+                       gout_ok (all_demanded (l_plat b) (l_meth b) (l_site b) c) g = true)
+                      /\ gout_ok (Some (all_outcome (l_plat b) (l_meth b) (l_site b) c)) g = true) (conds (l_plat b)) (l_outs b).
+Proof. exact allfail_contract. Qed.
+Print Assumptions C20_allfail_contract.
+Theorem C20_allfail_complete : ablocks_complete ladder_blocks all_blocks = true.
+Proof. exact allfail_complete. Qed.
+Print Assumptions C20_allfail_complete.
+
 (* TWO native calls in one method: the first fails with e1, the documented second route (Windows
    "fast call denied -> proc_info", Windows cmdline "PEB denied -> non-PEB query", Solaris uids/gids
    "cred denied -> psinfo") fails with e2 -- for EVERY method/call names, e1, e2, state, pid the model gives
@@ -154,6 +172,12 @@ Theorem C20_methods_use_documented_slots : forall u d, In u usage_rows ->
   fields_ok u d = true /\ type_ok u d = true.
 Proof. exact methods_use_documented_slots. Qed.
 Print Assumptions C20_methods_use_documented_slots.
+
+(* truthiness of slot values must not matter: 0 and -1 put into a native slot that a field copies arrive in that
+   field (same tuple type and length) -- every probed row, including system-wide net_connections() (sconn.pid) *)
+Theorem C20_falsy_slots_carried : forall u, In u usage_rows -> u_falsy_bad u = [].
+Proof. exact falsy_slots_carried. Qed.
+Print Assumptions C20_falsy_slots_carried.
 
 Theorem C20_usage_rows_complete : forall p m v, In (p, m, v) doc_keys -> exists u, find_urow p m v usage_rows = Some u.
 Proof. exact usage_rows_complete. Qed.
